@@ -126,7 +126,8 @@ def _call(app, path):
 
 def _app(gate_first, pos):
     """a fresh Application whose wsgi.pipeline has a middleware that parks its FIRST construction"""
-    state = {'entered': threading.Event(), 'release': threading.Event(), 'first': gate_first, 'built': 0}
+    state = {'entered': threading.Event(), 'release': threading.Event(), 'first': gate_first, 'built': 0,
+             'passed': {}}       # thread ident -> set of user layers (class names) its request went through
 
     class Gate(object):
         def __init__(self, nextapp, **kw):
@@ -138,6 +139,7 @@ def _app(gate_first, pos):
                 state['release'].wait(WAIT)
 
         def __call__(self, environ, start_response):
+            state['passed'].setdefault(threading.get_ident(), set()).add('gate')
             return self.nextapp(environ, start_response)
 
     class Other(object):
@@ -145,6 +147,7 @@ def _app(gate_first, pos):
             self.nextapp = nextapp
 
         def __call__(self, environ, start_response):
+            state['passed'].setdefault(threading.get_ident(), set()).add('other')
             return self.nextapp(environ, start_response)
 
     pipe = {'only': [('gate', Gate)], 'before_other': [('gate', Gate), ('other', Other)],
@@ -177,14 +180,37 @@ def run_case(case):
             st['release'].set()
             th.join(WAIT)
             return {'setup': 'the first request never reached the middleware constructor', 'ref': ref}
-        try:
-            got = _call(app, PATH[case['kind']])
-        finally:
-            st['release'].set()
-            th.join(WAIT)
+        # the request under test runs on a thread of its own: an implementation that serialises the assembly (a lock
+        # around it) makes it wait for the parked thread - then the first request is let go and both must still be
+        # answered correctly; only a request that never comes back is a failure
+        got, me = {}, {}
+
+        def t2():
+            me['ident'] = threading.get_ident()
+            got.update(_call(app, PATH[case['kind']]))
+        th2 = threading.Thread(target=t2, daemon=True)
+        th2.start()
+        th2.join(3.0)
+        serialised = th2.is_alive()
+        st['release'].set()
+        th.join(WAIT)
+        th2.join(WAIT)
         pref_app, _ = _app(False, case['pos'])
         pref = _call(pref_app, PATH[case['parked']])
-        return {'ref': ref, 'got': got, 'parked': parked, 'parked_ref': pref, 'hung': th.is_alive()}
+        # what the model of the lazy assembly (lean/CpModel/PipelineLazy.lean) talks about: layers of the memoized
+        # chain, threads that assembled a chain of their own, configured layers each request went through
+        depth, node = 0, app.wsgiapp.head
+        while node is not None and hasattr(node, 'nextapp') and depth < 50:
+            depth, node = depth + 1, node.nextapp
+        if node != app.wsgiapp.tail:
+            depth = '?'      # (the layers keep their successor under another name: the chain cannot be walked)
+        me = me.get('ident')
+        tie = {'n': len(app.wsgiapp.pipeline), 'user': len(app.wsgiapp.pipeline) - len(type(app.wsgiapp).pipeline),
+               'j': {'only': 0, 'before_other': 1, 'after_other': 0}[case['pos']],
+               'head_depth': depth if app.wsgiapp.head is not None else None, 'built': st['built'],
+               'passed_got': len(st['passed'].get(me, ())), 'passed_parked': len(st['passed'].get(th.ident, ()))}
+        return {'ref': ref, 'got': got, 'parked': parked, 'parked_ref': pref, 'hung': th.is_alive() or th2.is_alive(),
+                'tie': None if serialised else tie, 'serialised': serialised}
     finally:
         sys.unraisablehook = old_hook
 
@@ -219,3 +245,19 @@ def oracle(case, obs):
             bad.append(('%s was answered %r, the same request on an application nobody else is calling gets %r'
                         % (who, _show(o), _show(r)), 'race:answer_differs'))
     return bad
+
+
+def model_line(obs):
+    """the schedule of this run for the model: thread 0 reads self.head and wraps j layers (parked inside the next
+    constructor), thread 1 runs to its end, then thread 0 does"""
+    t = obs['tie']
+    n = t['n']
+    return 'L %d 2 %s' % (n, ' '.join(['0'] * (1 + t['j']) + ['1'] * (n + 3) + ['0'] * (n + 3)))
+
+
+def canon_real(obs):
+    """(`head=?`: not observable on this tree - the caller does not compare that field)"""
+    t = obs['tie']
+    builtin = t['n'] - t['user']
+    return 'head=%s pcs=c%d,c%d builders=%d' % ('N' if t['head_depth'] is None else t['head_depth'],
+                                               t['passed_parked'] + builtin, t['passed_got'] + builtin, t['built'])
